@@ -319,7 +319,63 @@ def observe_func(d, fn, imports=None):
 
 # ------------------------------------------------------------------ Gallina printing
 
+ERRTY = 999999      # the predeclared type error in the written form of a declaration (no declared type has this number)
+
+
+def coq_tree(d, tt):
+    """The declaration as WRITTEN (ParseDecl.pexpr): wrappers in the order provider_expr nests them, Sets as the layout
+    groups them. Returns (argument list term, implements table term, fields table term)."""
+    def pe(p):
+        if p["kind"] == "struct":
+            e = "XStruct %d%%N" % tt[p["type"]]
+            return "XAsync (%s)" % e if p.get("wrap") == "async" else e
+        if p["kind"] == "value":
+            e = "XValue %d%%N" % tt[p["provides"][0][0]]
+            for iface in p.get("bind", []):
+                e = "XBind %d%%N (%s)" % (tt[iface], e)
+            return e
+        rets = ["%d%%N" % tt[g[0]] for g in p["provides"]] + (["%d%%N" % ERRTY] if p["fallible"] else [])
+        e = "XProvide [%s] [%s]" % ("; ".join("%d%%N" % tt[t] for t in p["requires"]), "; ".join(rets))
+        if p["async"] and p.get("nest") == "bind_outer":
+            e = "XAsync (%s)" % e
+            for iface in p.get("bind", []):
+                e = "XBind %d%%N (%s)" % (tt[iface], e)
+            return e
+        for iface in p.get("bind", []):
+            e = "XBind %d%%N (%s)" % (tt[iface], e)
+        return "XAsync (%s)" % e if p["async"] else e
+    seen_order = []
+    def walk(layout):
+        for it in layout:
+            if isinstance(it, int):
+                seen_order.append(it)
+            else:
+                walk(it[1])
+    walk(d["layout"])
+    if seen_order != list(range(len(d["provs"]))):
+        raise Unparsed("harness: the layout of %s does not list the providers in index order" % d["name"])
+    def lay(layout):
+        return "[" + "; ".join(pe(d["provs"][it]) if isinstance(it, int) else "XSet %s" % lay(it[1]) for it in layout) + "]"
+    impl = []
+    for p in d["provs"]:
+        if p["kind"] != "struct":
+            for iface in p.get("bind", []):
+                impl.append("(%d%%N, %d%%N)" % (tt[p["provides"][0][0]], tt[iface]))
+    ftbl = []
+    for p in d["provs"]:
+        if p["kind"] == "struct":
+            ftbl.append("(%d%%N, [%s])" % (tt[p["type"]], "; ".join("(%d%%N, %d%%N)" % (k + 1, tt[ft]) for k, (fn, ft) in enumerate(p["fields"]))))
+    return lay(d["layout"]), "[" + "; ".join(impl) + "]", "[" + "; ".join(ftbl) + "]"
+
+
 def coq_decl(d, tt):
+    """the declaration the model works on: the written form, decoded by ParseDecl.parse"""
+    tree, impl, ftbl = coq_tree(d, tt)
+    return "(decl_of_tree %d%%N %s %d%%N %s %s)" % (tt[d["ret"]], impl, ERRTY, ftbl, tree)
+
+
+def coq_decl_flat(d, tt):
+    """the harness's own flat provider list (reference for ParseDecl.tree_code)"""
     ps = []
     for p in d["provs"]:
         if p["kind"] == "struct":
@@ -430,11 +486,12 @@ def classify_error(stderr):
     return "other"
 
 
-def run_cases(cases, workdir, name="cases", progs=None, specs=None):
+def run_cases(cases, workdir, name="cases", progs=None, specs=None, flats=None):
     """cases: list of (id:int, coq_decl:str, coq_obs:str); progs: {id: (Sem2.prog term, rank list)}; specs: {id: Spec.sval term}.
     Returns (ok, mismatching (id, code), log, failing checker (id, code))."""
     progs = progs or {}
     specs = specs or {}
+    flats = flats or {}
     if not cases:
         return True, [], "", []
     shards = []
@@ -445,9 +502,12 @@ def run_cases(cases, workdir, name="cases", progs=None, specs=None):
         sh = shards[ix]
         path = os.path.join(workdir, "%s_%d.v" % (name, ix))
         with open(path, "w") as f:
-            f.write("From Coq Require Import List NArith. Import ListNotations.\nRequire Import Gen Corr GenU CorrS Sem2 Check Overlap Spec.\n")
+            f.write("From Coq Require Import List NArith. Import ListNotations.\nRequire Import Gen ParseDecl Corr GenU CorrS Sem2 Check Overlap Spec.\n")
             f.write("Definition cases : list (nat * (decl * xres)) := [\n" + ";\n".join("(%d, (%s, %s))" % c for c in sh) + "].\n")
             f.write("Definition M := Eval vm_compute in xmismatches cases.\nPrint M.\n")
+            fl = [(c[0], c[1], flats[c[0]]) for c in sh if c[0] in flats]
+            f.write("Definition trees : list (nat * (decl * decl)) := [\n" + ";\n".join("(%d, (%s, %s))" % x for x in fl) + "].\n")
+            f.write("Definition T := Eval vm_compute in flat_map (fun c => match tree_code (fst (snd c)) (snd (snd c)) with 0 => [] | k => [(fst c, k)] end) trees.\nPrint T.\n")
             pl = [(c[0],) + progs[c[0]][:2] for c in sh if c[0] in progs]
             f.write("Definition obsprogs : list (nat * (Sem2.prog * list (nat * nat))) := [\n" + ";\n".join("(%d, (%s, %s))" % x for x in pl) + "].\n")
             pf = [(c[0], progs[c[0]][0], progs[c[0]][2]) for c in sh if c[0] in progs and progs[c[0]][2] != "[]"]
@@ -494,6 +554,12 @@ def run_cases(cases, workdir, name="cases", progs=None, specs=None):
             if not m:
                 ok = False
                 log += "cannot parse C05 checker output: " + out[-500:]
+                continue
+            chk += [(int(a), int(b)) for a, b in re.findall(r"\((\d+),\s*(\d+)\)", m.group(1))]
+            m = re.search(r"T\s*=\s*\[(.*?)\]\s*:\s*list \(nat \* nat\)", out, re.S)
+            if not m:
+                ok = False
+                log += "cannot parse written-form output: " + out[-500:]
                 continue
             chk += [(int(a), int(b)) for a, b in re.findall(r"\((\d+),\s*(\d+)\)", m.group(1))]
             m = re.search(r"V\s*=\s*\[(.*?)\]\s*:\s*list \(nat \* nat\)", out, re.S)
@@ -654,9 +720,16 @@ def _stage(seed, tier, want_malformed, key="S-x"):
             tr = declgen.eval_tree(r["decl"])
             if tr is not None:
                 specs[r["id"]] = declgen.tree_sval(r["decl"], tr, type_table(r["decl"]))
-    ok, bad, log, chk = run_cases(cases, mod, "cases_s", progs, specs)
+    # the harness's own flat provider list of every declaration, compared in Coq with the decoding of the written form
+    flats = {}
+    for r in records:
+        if r["id"] and r.get("decl"):
+            flats[r["id"]] = coq_decl_flat(r["decl"], type_table(r["decl"]))
+    ok, bad, log, chk = run_cases(cases, mod, "cases_s", progs, specs, flats)
     for r in records:
         codes = [c for i, c in chk if i == r["id"]]
+        if 41 in codes:
+            r["problems"].append("harness: ParseDecl.parse of the written declaration differs from the harness's flat provider list")
         r["spec_code"] = ([c for c in codes if 30 <= c < 40] or [0])[0]   # 31: Spec.spec_eval differs from the harness's reference value
         r["checker_code"] = ([c for c in codes if c < 10] or [0])[0]     # 1: not well-synchronised (wf), 2: rank conditions fail
         r["explore_code"] = ([c - 10 for c in codes if 10 <= c < 20] or [0])[0]  # 1: model run reads an unwritten variable, 2: model run deadlocks
